@@ -51,6 +51,8 @@ func main() {
 		goarch = flag.String("goarch", "", "GOARCH for loading (thorough tier also loads 386)")
 		dump   = flag.String("pathsum", "", "debug: dump the path summaries of recv.func")
 		quiet  = flag.Bool("q", false, "with -pathsum: counts only")
+		dmode  = flag.String("mode", "", "with -pathsum: 'load' summarises singleflight callees, 'getnode' the filtered lookups")
+		dpre   = flag.String("preset", "", "with -pathsum: name=value,... preset parameters")
 	)
 	flag.Parse()
 	if *tier == "" {
@@ -79,6 +81,13 @@ func main() {
 		if err != nil {
 			fmt.Fprintln(os.Stderr, err)
 			os.Exit(2)
+		}
+		dumpMode = *dmode
+		dumpPreset = map[string]string{}
+		for _, kv := range strings.Split(*dpre, ",") {
+			if i := strings.Index(kv, "="); i > 0 {
+				dumpPreset[kv[:i]] = kv[i+1:]
+			}
 		}
 		dumpPathSum(&Ctx{P: P, R: NewRun("dump", *tier, 0), Tier: *tier}, *dump, *quiet)
 		return
